@@ -140,7 +140,7 @@ static void sets(int n, std::vector<Str> &srcs, std::vector<Str> &bases) {
     }
     // authorities that differ from the ones above only in the last address byte / in the low half of an IPv6 address (shorter paths)
     { std::vector<Str> p2 = path_token_paths(tokens, n > 1 ? n - 1 : n, 1); p2.push_back("");
-      for (auto a : { "//1.2.3.5", "//[::2]", "//[1::1]", "//[v1.b]", "//H", "//v1.a", "//v1.b", "//u@v1.a" /* v1.a: a registered name spelled like the IPvFuture literal [v1.a] */ }) for (auto &p : p2) for (auto q : { "", "?q" }) {
+      for (auto a : { "//1.2.3.5", "//[::2]", "//[1::1]", "//[v1.b]", "//H", "//v1.a", "//v1.b", "//u@v1.a", "//u@1.2.3.4", "//1.2.3.4:1", "//[::1]:1", "//u@[::1]", "//u@[v1.a]:1" /* IP literals with user info / port; and v1.a: a registered name spelled like the IPvFuture literal [v1.a] */ }) for (auto &p : p2) for (auto q : { "", "?q" }) {
           Str body = Str(a) + p + q; if (!ref::is_uri_reference("s:" + body)) continue;
           if (seen_b.insert("s:" + body).second) bases.push_back("s:" + body); if (seen_s.insert("s:" + body).second) srcs.push_back("s:" + body); } }
     for (auto s : { "a", "/a", "//h/a", "" }) { srcs.push_back(s); bases.push_back(s); }
